@@ -19,28 +19,44 @@ def setAttr : List (String × Val) → String → Val → List (String × Val)
   | [], _, _ => []
   | (b, x) :: rest, a, v => if b == a then (b, v) :: rest else (b, x) :: setAttr rest a v
 
+/-- a renaming of identifier occurrences: path of the Identifier node (innermost step first) ↦ old name ↦ new name -/
+abbrev Rho := Path → String → String
+
 mutual
-  def renameVal (fin : Final) (path : Path) : Val → Val
+  /-- the tree with the `value` of every `Identifier` node replaced by `ρ path value` -/
+  def renameBy (ρ : Rho) (path : Path) : Val → Val
     | .node k as =>
-      let as' := renameAttrs fin path as
-      match lookupPath fin.identifiers path with
-      | none => .node k as'
-      | some _ =>
-        match resolveIdent fin path (.node k as) with
-        | .ok v => .node k (setAttr as' "value" v)
-        | .error _ => .node k as'
+      let as' := renameAttrsBy ρ path as
+      if k == "Identifier" then
+        match Spec.Scope.lookupAttr as "value" with
+        | some (.str s) => .node k (setAttr as' "value" (.str (ρ path s)))
+        | _ => .node k as'
+      else .node k as'
+    | .list xs => .list (renameListBy ρ path "" 0 xs)
     | v => v
-  def renameList (fin : Final) (path : Path) (a : String) : Nat → List Val → List Val
+  def renameListBy (ρ : Rho) (path : Path) (a : String) : Nat → List Val → List Val
     | _, [] => []
-    | i, v :: vs => renameVal fin ((a, i) :: path) v :: renameList fin path a (i + 1) vs
-  def renameAttrs (fin : Final) (path : Path) : List (String × Val) → List (String × Val)
+    | i, v :: vs => renameBy ρ ((a, i) :: path) v :: renameListBy ρ path a (i + 1) vs
+  def renameAttrsBy (ρ : Rho) (path : Path) : List (String × Val) → List (String × Val)
     | [] => []
     | (a, v) :: rest =>
       (if Val.isMeta a then (a, v)
        else match v with
-         | .list xs => (a, .list (renameList fin path a 0 xs))
-         | x => (a, renameVal fin ((a, 0) :: path) x)) :: renameAttrs fin path rest
+         | .list xs => (a, .list (renameListBy ρ path a 0 xs))
+         | x => (a, renameBy ρ ((a, 0) :: path) x)) :: renameAttrsBy ρ path rest
 end
+
+/-- what `Obfuscator.resolve` answers for the Identifier at `path` spelled `s` -/
+def rhoFin (fin : Final) : Rho := fun path s =>
+  match lookupPath fin.identifiers path with
+  | none => s
+  | some sid =>
+    match lookupChain fin.chains sid with
+    | some tables => resolveTables tables s
+    | none => s
+
+/-- the renamed program: what the obfuscating printer prints at every Identifier -/
+def renameVal (fin : Final) (path : Path) (v : Val) : Val := renameBy (rhoFin fin) path v
 
 def keepsName (og : Bool) (k : Spec.Scope.BKind) : Bool :=
   k == .free || k == .args || k == .nolabel || (k == .global && !og)
